@@ -144,9 +144,17 @@ theorem Inv1.stepP {s t : St} {ev : Ev} (h : Inv1 s) (hs : PE.stepP s ev = some 
   all_goals constructor <;> (try dsimp only)
   all_goals (first | assumption | grind [SnapOK, pStatusOK_true, markDel_uid, markDel_phase, markDel_allocs, markDel_del, markDel_ver, markDel_of_del, pAfterDel, pAfterCre, podMatches_live, podMatches_absent, podMatches_exited, podMatches_term])
 
+theorem stepD_eq {s t : St} {ev : Ev} (hs : PE.stepD s ev = some t) : t = s := by
+  unfold PE.stepD at hs
+  split at hs
+  · split at hs
+    · exact (Option.some.inj hs).symm
+    · cases hs
+  · cases hs
+
 theorem Inv1.step {s t : St} {ev : Ev} (h : Inv1 s) (hs : PE.step s ev = some t) : Inv1 t := by
   cases ev <;> simp only [PE.step] at hs <;>
-    first | exact h.stepEnv hs | exact h.stepP hs | exact h.stepE hs | exact h.stepG hs | exact h.stepL hs
+    first | exact h.stepEnv hs | exact h.stepP hs | exact h.stepE hs | exact h.stepG hs | exact h.stepL hs | exact (stepD_eq hs) ▸ h
 
 theorem Inv1.run {s t : St} {evs : List Ev} (h : Inv1 s) (hs : PE.run s evs = some t) : Inv1 t := by
   induction evs generalizing s with
